@@ -344,7 +344,7 @@ func TestCheck(t *testing.T) {
 		universe = append(universe, flowSpec{p, 0, true}, flowSpec{p, 1, true})
 	}
 	maxSet := 2
-	r.Rule = fmt.Sprintf("all flow sets of size 1..%d over %d (pattern, constraint, user|system) combinations (%d patterns over host h.com and path parts {a,b,{p},*}) x every insertion order x %d transactions (paths of length 0-3 over {a,b,c} x GET/POST x header x query x request/response 200/500) through the real FilterTree; triples: all sets of three over 24 combinations (8 patterns x {none, GET, header} x user flows) in every order; engine level: all sets of <=2 over 48 combinations, alone and next to a quota (system flows) on one of two patterns, written as YAML, loaded into a real Stream by the real loader and driven through the request/response entry points with a recording wrapper around every processor (which flows ran; nothing runs and no action is returned when no filter matches); non-trivial = a transaction for which at least one configured flow's filter accepts; distinct = (flow set, order, transaction)", maxSet, len(universe), len(patterns), len(txns))
+	r.Rule = fmt.Sprintf("all flow sets of size 1..%d over %d (pattern, constraint, user|system) combinations (%d patterns over host h.com and path parts {a,b,{p},*}) x every insertion order x %d transactions (paths of length 0-3 over {a,b,c} x GET/POST x header x query x request/response 200/500) through the real FilterTree; triples: all sets of three over 24 combinations (8 patterns x {none, GET, header} x user flows) in every order; ports: all sets of <=3 over 7 patterns with and without a port in the host x {none, GET} in every order x transactions to four ports and no port; engine level: all sets of <=2 over 48 combinations, alone and next to a quota (system flows) on one of two patterns, written as YAML, loaded into a real Stream by the real loader and driven through the request/response entry points with a recording wrapper around every processor (which flows ran; nothing runs and no action is returned when no filter matches); non-trivial = a transaction for which at least one configured flow's filter accepts; distinct = (flow set, order, transaction)", maxSet, len(universe), len(patterns), len(txns))
 	r.Assume("header and query constraints are asserted on the request side only (the response message carries no request headers/query); status only on the response side",
 		"a trailing wildcard matched with zero further segments is left open (neither required nor forbidden)",
 		"methods limited to GET/POST so the default five-method list of system flows is not at issue")
@@ -392,6 +392,41 @@ func TestCheck(t *testing.T) {
 		first := map[int][]string{}
 		mc.Permutations(len(flows), func(p []int) bool {
 			evalSet(r, flows, p, txns, first)
+			return true
+		})
+		r.NonTrivial(fmt.Sprint(flows))
+		return true
+	})
+	// ports: a port in the host part is part of the host (patterns and traffic that differ only
+	// in the port are different endpoints); all sets of <=3 over 7 patterns x {none, GET} in
+	// every order x transactions to four ports and no port
+	var ported []flowSpec
+	for _, p := range []string{"h.com/a", "h.com:8080/a", "h.com:9090/a", "h.com:8080/*", "h.com/*", "h.com:8080/{p}", "h.com:9090"} {
+		for _, c := range []int{0, 1} {
+			ported = append(ported, flowSpec{p, c, false})
+		}
+	}
+	var ptxns []txn
+	for _, u := range []string{"h.com/a", "h.com:8080/a", "h.com:9090/a", "h.com:7070/a", "h.com:8080/b", "h.com:9090", "h.com:443/a", "h.com"} {
+		for _, m := range []string{"GET", "POST"} {
+			ptxns = append(ptxns, txn{URL: u, Method: m}, txn{URL: u, Method: m, Resp: true, Status: 200})
+		}
+	}
+	for i := range ptxns {
+		ptxns[i].stream = mkStream(ptxns[i])
+	}
+	mc.Subsets(len(ported), 1, 3, func(s []int) bool {
+		idx++
+		if !r.Mine(idx) {
+			return true
+		}
+		flows := make([]flowSpec, len(s))
+		for i, k := range s {
+			flows[i] = ported[k]
+		}
+		first := map[int][]string{}
+		mc.Permutations(len(flows), func(p []int) bool {
+			evalSet(r, flows, p, ptxns, first)
 			return true
 		})
 		r.NonTrivial(fmt.Sprint(flows))
